@@ -8,34 +8,54 @@ def run(ck, tier, seed):
     tmp = vlib.tmpdir("C18")
     raw = os.path.join(tmp, "raw.ndjson")
     cfg = "Features_quick.cfg" if tier == "quick" else "Features_thorough.cfg"
-    r = vlib.tlc("FeaturesMC.tla", cfg, out_file=raw, timeout=6000, coverage=False, heap="24g")
+    r = vlib.tlc("FeaturesMC.tla", cfg, out_file=raw, timeout=6000, coverage=False, heap="24g", parse=False)
     if r.violation:
         ck.violation("TLC: %s violated in Features (design level)" % r.violation, {"why": "Features model", "trace": vlib.tlc_error_trace(r.out)})
         return
     ck.add_tlc("Features/" + cfg, r)
-    if not r.emitted:
-        raise vlib.Broken("Features emitted no behaviours")
     # negative control: a packing that lets a field straddle a word boundary must break the refinement
     rn = vlib.tlc("FeaturesMC.tla", "Features_neg.cfg", timeout=900, coverage=False)
     if rn.violation not in ("PackingOk", "Refines"):
         raise vlib.Broken("negative control Features_neg not refuted: %r" % rn.violation)
-    cases = r.emitted
-    cases.sort(key=lambda c: json.dumps(c["defs"]))
+    # the emitted behaviours are streamed (the thorough configuration emits millions): every `stride`-th one is replayed,
+    # grouped by feature definitions (the lines start with "defs", so a textual sort groups them)
+    stride = 1 if tier == "quick" else 8
+    picked = os.path.join(tmp, "picked.ndjson")
+    n = 0
+    with open(picked, "w") as fo:
+        for k, line in enumerate(open(raw)):
+            if (k + seed) % stride == 0:
+                fo.write(line)
+                n += 1
+    if n == 0:
+        raise vlib.Broken("Features emitted no behaviours")
+    srt = os.path.join(tmp, "sorted.ndjson")
+    rc, out, _ = vlib.sh("LC_ALL=C sort -S 2G -T %s -o %s %s" % (tmp, srt, picked), timeout=3000)
+    if rc != 0:
+        raise vlib.Broken("sort failed: " + out[-500:])
+    os.remove(raw)
+    os.remove(picked)
     cf = os.path.join(tmp, "cases.ndjson")
+    ncases = 0
     with open(cf, "w") as fo:
-        for c in cases:
+        for line in open(srt):
+            c = json.loads(line)
             c.update(feat.from_case(c))
             fo.write(json.dumps(c) + "\n")
-    for c in cases[1000:1003]:
-        ck.sample({"module": "Features", "defs": c["defs"], "log": c["log"]})
+            ncases += 1
+            if ncases in (1000, 1001, 1002):
+                ck.sample({"module": "Features", "defs": c["defs"], "log": c["log"]})
+    os.remove(srt)
+    ck.extra["replayed_behaviours"] = ncases
+    ck.extra["replay_stride"] = stride
     host = os.path.join(vlib.REPO, "tests/fonts/small.ttf")
     exe = vlib.build_harness("san")
     h = vlib.run_harness(exe, ["features", cf, host, 1], timeout=6000)
     vlib.absorb(ck, h)
     if h.summary:
-        ck.traces += len(cases)
+        ck.traces += ncases
         ck.extra["impl"] = {"features": h.summary["extra"]}
-        ck.exhaustive = True
+        ck.exhaustive = (stride == 1)
         ck.extra["exhaustive_note"] = "every value 0..65535 set on every feature of every synthesised font (acceptance, read-back, isolation)"
     # shipped fonts: self-consistency of set/get/clone over all features (values from the Feat table itself)
     fonts = [os.path.join(vlib.REPO, "tests/fonts", f) for f in ("Padauk.ttf", "charis_r_gr.ttf", "Scheherazadegr.ttf", "MagyarLinLibertineG.ttf", "Annapurnarc2.ttf")]
